@@ -232,3 +232,64 @@ func VerifH_C13_Backoff() {
 		nd.Assert(s.retryIntervals[i] > s.retryIntervals[i-1], "intervals-grow")
 	}
 }
+
+// The coordinator's bookkeeping of a retry: a height that failed c times and
+// fails again inside its retry job is recorded with c+1 attempts and a later
+// retry time; one that succeeds leaves both maps; a first failure (recent or
+// catch-up job) starts at one attempt. From an arbitrary attempt count.
+//
+//verif:opts nopanic cover=failed-again,succeeded,first-failure,not-yet
+func VerifH_C13_RetryBookkeepingKeepsTheAttemptCount() {
+	st := newCoordinatorState(Parameters{SamplingRange: 2})
+	st.networkHead, st.next = 20, 21
+	const h = uint64(9)
+	count := nd.Int("count")
+	nd.Assume(count >= 1 && count <= 8)
+	due := nd.Bool("backoffElapsed")
+	// the model clock is an arbitrary non-decreasing instant in [1, 2^60) ns:
+	// instant 0 is always in the past, 2^61 always in the future
+	after := time.Unix(0, 0)
+	if !due {
+		after = time.Unix(0, 1<<61)
+	}
+	st.failed[h] = retryAttempt{count: count, after: after}
+
+	if nd.Choice(2, "kind") == 0 {
+		// the height is picked up by a retry job
+		j, found := st.retryJob()
+		if !due {
+			nd.Cover("not-yet")
+			nd.Assert(!found && st.failed[h].count == count, "height-is-not-retried-before-its-back-off-elapsed")
+			return
+		}
+		nd.Assert(found && j.jobType == retryJob && j.from == h && j.to == h, "due-height-gets-a-retry-job")
+		_, stillFailed := st.failed[h]
+		nd.Assert(!stillFailed && st.inRetry[h].count == count, "height-in-retry-keeps-its-attempt-count")
+		res := result{job: j}
+		failsAgain := nd.Bool("failsAgain")
+		if failsAgain {
+			res.failed = map[uint64]int{h: 1}
+		}
+		before := time.Now()
+		st.handleResult(res)
+		_, inRetry := st.inRetry[h]
+		nd.Assert(!inRetry, "finished-retry-leaves-the-in-retry-set")
+		f, failed := st.failed[h]
+		if failsAgain {
+			nd.Cover("failed-again")
+			nd.Assert(failed && f.count == count+1, "attempt-count-increases-by-one")
+			nd.Assert(f.after.After(before), "next-attempt-after-a-delay")
+		} else {
+			nd.Cover("succeeded")
+			nd.Assert(!failed, "successful-retry-clears-the-failure")
+		}
+		return
+	}
+	// a fresh failure reported by a catch-up job starts the count at one
+	nd.Cover("first-failure")
+	const h2 = uint64(12)
+	j := st.newJob(catchupJob, 12, 13)
+	st.handleResult(result{job: j, failed: map[uint64]int{h2: 1}})
+	nd.Assert(st.failed[h2].count == 1, "first-failure-counts-one-attempt")
+	nd.Assert(st.failed[h].count == count, "other-heights-keep-their-attempt-count")
+}
